@@ -581,10 +581,12 @@ fn case_compiled(rng: &mut Rng, out: &mut Out, n: usize, b: usize, npay: usize, 
 pub fn run(tier: &str, seed: u64, out: &mut Out) {
     let mut rng = Rng::new(seed ^ 0xC18);
     let (rounds, compiled_cfgs, compiled_seeds) = match tier {
-        "thorough" => (14, 40, 3),
-        "search" => (40, 80, 3),
-        _ => (1, 5, 2),
+        "thorough" => (14, 300, 3),
+        "search" => (40, 600, 3),
+        _ => (1, 30, 2),
     };
+    // per-round volume of the non-grid streams (quick is kept near 500 cases)
+    let (intkey_reps, perm_reps, gather_reps) = if tier == "quick" { (1, 6, 100) } else { (2, 12, 150) };
     for round in 0..rounds {
         // every (n, b) of the stated grid once per round
         for n in 1..=12usize {
@@ -594,16 +596,16 @@ pub fn run(tier: &str, seed: u64, out: &mut Out) {
         }
         for n in 1..=12usize {
             for &st in ALL_ST.iter() {
-                for _ in 0..2 {
+                for _ in 0..intkey_reps {
                     case_intkey(&mut rng, out, n, st);
                 }
             }
-            for _ in 0..12 {
+            for _ in 0..perm_reps {
                 case_apply_perm(&mut rng, out, n);
                 case_inverse_perm(&mut rng, out, n);
             }
         }
-        for _ in 0..150 {
+        for _ in 0..gather_reps {
             case_gather(&mut rng, out);
         }
         let _ = round;
